@@ -98,10 +98,11 @@ class Registry:
     def ghost_code(self, qname: str, anchor: str, code: str):
         self.ghost.setdefault(qname, []).append(GhostCode(qname, anchor, code))
 
-    def lemma(self, name: str, params, statement: str):
+    def lemma(self, name: str, params, statement: str, always: bool = False):
         """A closed lemma: proved once, stand-alone (no path condition); instantiated by use_lemma(name, args...)
         in ghost code."""
-        self.lemmas.append({"name": name, "params": params, "statement": statement})
+        # always=True: a lemma that IS a property clause (proved on every run, not only when instantiated by use_lemma)
+        self.lemmas.append({"name": name, "params": params, "statement": statement, "always": always})
 
     def spec(self, name: str):
         def deco(fn):
